@@ -93,28 +93,31 @@ def highfreq_bound(model, w, mu, eta, args=()):
     return e
 
 
-def extreme_value(model, w, mu, eta, args=()):
-    """The documented limit value returned in the extreme-value branches, or None when the ordinary law applies.
-    |w| < 1e-17 -> zero-frequency limit; |w| > 1e8 or infinite -> infinite-frequency limit (both pinned by
-    Tests/Test_Functions/test_rheology.py); mu < 1e-3 -> the mu -> 0 limit of the law."""
+def documented_limit(model, w, mu, eta, args=()):
+    """The documented limit constant, for arguments *well inside* a documented extreme-value branch, else None.
+
+    Documented: TidalPy/utilities/constants_x.pyx ("any forcing period larger than a Gyr leads to a zero in frequency
+    ... roughly 1.0e-17 rad/s", "max frequency is for a forcing period of 1 micro-second", 1e8 rad/s) and
+    Tests/Test_Functions/test_rheology.py, which pins the values at w = 0 and w = inf:
+        zero frequency:  Elastic mu, Newton 0, Maxwell/Burgers/Andrade/Sundberg-Cooper 0, Voigt (voigt_modulus_scale mu, 0)
+        infinite:        Elastic mu, Newton/Voigt (0, inf), Maxwell family (mu, 0)
+    Applied only a factor >= 10 inside the branch (|w| <= 1e-18 or |w| >= 1e9) and for mu, eta in the physical range, so
+    that moving a guard threshold by less than a decade, or reordering guards, is not reported.  The modulus guard
+    (mu < 1e-3 Pa) lies outside the physical range of the statement and has no documented value: not compared."""
     wa = abs(float(w))
-    sm, sv, _, _ = split_args(model, args)
-    if model == 'Elastic':
+    if not (1e3 <= mu <= 1e13 and 1.0 <= eta <= 1e30) or math.isnan(wa):
         return None
-    if wa < MIN_FREQUENCY:
+    sm, sv, _, _ = split_args(model, args)
+    if wa <= 0.1 * MIN_FREQUENCY:
+        if model == 'Elastic':
+            return complex(mu, 0.0)
         if model == 'Voigt':
             return complex(sm * mu, 0.0)
         return complex(0.0, 0.0)
-    if wa > MAX_FREQUENCY or math.isinf(wa):
+    if wa >= 10.0 * MAX_FREQUENCY:
         if model in ('Newton', 'Voigt'):
             return complex(0.0, math.inf)
         return complex(mu, 0.0)
-    if mu < MIN_MODULUS:
-        if model == 'Newton':
-            return complex(0.0, wa * eta)
-        if model == 'Voigt':
-            return complex(0.0, (sv * eta) * wa)
-        return complex(0.0, 0.0)
     return None
 
 
